@@ -970,7 +970,8 @@ def case_traj(p, prm):
 
 # ============================================================================== LED timings ====
 
-LED_COLOURS = ((0, 0, 0), (255, 255, 255), (255, 0, 0), (0, 255, 0), (0, 0, 255), (8, 4, 8), (100, 150, 200))
+LED_COLOURS = ((0, 0, 0), (255, 255, 255), (255, 0, 0), (0, 255, 0), (0, 0, 255), (8, 4, 8), (100, 150, 200), (2, 1, 3))
+LED_DARK = ((0, 0, 0), (2, 1, 3))     # colours below half a step of every RGB565 channel: stored as 0 whatever the rounding
 
 
 def gen_led(tier):
@@ -981,7 +982,7 @@ def gen_led(tier):
                     for ci in range(len(LED_COLOURS)):
                         yield {'seq': [[t, ci, leds, fade, rot]]}
     pool = [[0, 0, 0, False, 0], [5, 1, 3, True, 2], [0, 0, 1, False, 0], [255, 3, 15, True, 7], [1, 0, 0, False, 0],
-            [0, 5, 0, False, 0]]
+            [0, 5, 0, False, 0], [0, 7, 0, False, 0]]
     yield {'seq': []}
     for n in (2, 3):
         for s in itertools.product(range(len(pool)), repeat=n):
@@ -997,8 +998,8 @@ def case_led(p, prm):
     for t, ci, leds, fade, rot in prm['seq']:
         r, g, b = LED_COLOURS[ci]
         m.add(time=t, rgb={'r': r, 'g': g, 'b': b}, leds=leds, fade=fade, rotate=rot)
-        if t == 0 and (r, g, b) == (0, 0, 0) and leds == 0 and not fade and rot == 0:
-            continue                 # a zero-duration black no-op equals the end marker; cannot be stored
+        if t == 0 and (r, g, b) in LED_DARK and leds == 0 and not fade and rot == 0:
+            continue                 # a zero-duration no-op whose colour is stored as black equals the end marker; cannot be stored
         want.append((t, (r, g, b), leds, fade, rot))
     has_noop = len(want) != len(prm['seq'])
     obs = {'image': 'LED timing sequence', 'sequence': prm['seq']}
@@ -1062,6 +1063,12 @@ def gen_deck(tier):
                 for bf2 in range(4):
                     k += 1
                     yield {'slot': slot, 'bf1': bf1, 'bf2': bf2, 'k': k, 'version': 3, 'junk_bits': True}
+    # a valid record whose name bytes are not text (an uninitialised or foreign deck memory): what the library makes of that
+    # record is not judged, but the query completes and the well-formed records next to it are delivered exactly
+    for slot in range(8):
+        for bad in ('b54465636b', 'ff' * 18, '6263e9', 'c328', '80'):
+            k += 1
+            yield {'slot': slot, 'bf1': 0x0F, 'bf2': 1, 'k': k, 'version': 3, 'junk_bits': False, 'bad_name': bad}
     for v in range(256):
         if v != 3:
             k += 1
@@ -1088,8 +1095,14 @@ def case_deck(p, prm):
         if prm['junk_bits']:
             wire1, wire2 = bf1 | 0x80, bf2 | 0xFC
         nm = _deck_name(n, k + i, junk)
+        if i == slot and prm.get('bad_name'):
+            nm = bytes.fromhex(prm['bad_name'])
+            nm = nm + b'\0' * (18 - len(nm)) if len(nm) < 18 else nm
+            text = None
+        else:
+            text = nm.split(b'\0')[0].decode('ascii')
         infos.append((wire1, wire2, _DECK_U32[(k + i) % 6], _DECK_U32[(k + i + 2) % 6], _DECK_U32[(k + i + 4) % 6], nm,
-                      bf1, bf2, nm.split(b'\0')[0].decode('ascii')))
+                      bf1, bf2, text))
     img = D.deck_info_image(prm['version'], [e[:6] for e in infos])
     h = ByteMem(0x2000, fill=0)
     h.img[:len(img)] = img
@@ -1116,6 +1129,11 @@ def case_deck(p, prm):
         return obs
     res = okc[0]
     exp_keys = [i for i in range(8) if infos[i][6] & 1]
+    if prm.get('bad_name'):
+        # the record with the undecodable name: present or skipped, not judged
+        cls = 'next_to_undecodable_name'
+        exp_keys = [i for i in exp_keys if i != slot]
+        res = {i: d for i, d in res.items() if i != slot}
     if sorted(res) != exp_keys:
         p.violation('deck:decks_present:' + cls, 'valid bits set for slots %r, query returned %r' % (exp_keys, sorted(res)), rp)
         return obs
